@@ -386,6 +386,111 @@ theorem spectrumSelection_first (b : Bitmap) (hwf : b.WF) (m : Int) (hm : 0 < m)
         (by rwa [show b.nMin + ((n' - m - b.nMin).toNat : Int) + m = n' by omega])
       rw [hsome] at hnone; cases hnone
 
+theorem candidates_nil (b : Bitmap) (m : Int) (is : List Nat) (h : candidates b m is = .ok []) :
+    ∀ j ∈ is, candAt b m j = .ok none := by
+  induction is with
+  | nil => intro j hj; cases hj
+  | cons i is ih =>
+    simp only [candidates, bind, Except.bind] at h
+    cases h1 : candAt b m i with
+    | error e => rw [h1] at h; cases h
+    | ok o =>
+      rw [h1] at h
+      cases h2 : candidates b m is with
+      | error e => rw [h2] at h; cases h
+      | ok r =>
+        rw [h2] at h
+        cases o with
+        | none =>
+          have : r = [] := by simpa [pure, Except.pure] using h
+          subst this
+          intro j hj
+          rcases List.mem_cons.1 hj with rfl | hj
+          · exact h1
+          · exact ih h2 j hj
+        | some y => simp [pure, Except.pure] at h
+
+/-- the last candidate comes from the last position that qualifies -/
+theorem candidates_last (b : Bitmap) (m : Int) (is : List Nat) (c : List Int) (x : Int)
+    (h : candidates b m is = .ok c) (hx : c.getLast? = some x) :
+    ∃ pre i post, is = pre ++ i :: post ∧ candAt b m i = .ok (some x) ∧ ∀ j ∈ post, candAt b m j = .ok none := by
+  induction is generalizing c with
+  | nil =>
+    have : c = [] := by simpa [candidates, pure, Except.pure] using h.symm
+    subst this; cases hx
+  | cons i is ih =>
+    simp only [candidates, bind, Except.bind] at h
+    cases h1 : candAt b m i with
+    | error e => rw [h1] at h; cases h
+    | ok o =>
+      rw [h1] at h
+      cases h2 : candidates b m is with
+      | error e => rw [h2] at h; cases h
+      | ok r =>
+        rw [h2] at h
+        cases o with
+        | none =>
+          have : c = r := by simpa [pure, Except.pure] using h.symm
+          subst this
+          obtain ⟨pre, j, post, e, hc, hp⟩ := ih c h2 hx
+          exact ⟨i :: pre, j, post, by simp [e], hc, hp⟩
+        | some y =>
+          have : c = y :: r := by simpa [pure, Except.pure] using h.symm
+          subst this
+          cases r with
+          | nil =>
+            have : y = x := by simpa using hx
+            subst this
+            exact ⟨[], i, is, rfl, h1, candidates_nil b m is h2⟩
+          | cons z zs =>
+            have hx' : (z :: zs).getLast? = some x := by
+              rw [List.getLast?_cons_cons] at hx; exact hx
+            obtain ⟨pre, j, post, e, hc, hp⟩ := ih (z :: zs) h2 hx'
+            exact ⟨i :: pre, j, post, by simp [e], hc, hp⟩
+
+/-- last fit: no feasible position above the returned one -/
+theorem spectrumSelection_last (b : Bitmap) (hwf : b.WF) (m : Int) (hm : 0 < m) (n : Int)
+    (h : spectrumSelection b m Policy.lastFit = .ok (some n)) :
+    ∀ n' : Int, n < n' → ¬ RangeOK b n' m := by
+  simp only [spectrumSelection, bind, Except.bind] at h
+  cases h1 : candidates b m (List.range b.cells.length) with
+  | error e => rw [h1] at h; cases h
+  | ok c =>
+    rw [h1] at h
+    cases c with
+    | nil => simp [selectCandidate, pure, Except.pure] at h
+    | cons x xs =>
+      have hx : (x :: xs).getLast? = some n := by
+        have : (x :: xs).getLast?.getD x = n := by simpa [selectCandidate, pure, Except.pure] using h
+        cases hl : (x :: xs).getLast? with
+        | none => simp at hl
+        | some y => rw [hl] at this; simpa using congrArg some this
+      obtain ⟨pre, i, post, e, hc, hp⟩ := candidates_last b m _ _ n h1 hx
+      obtain ⟨hxi, _⟩ := candAt_some b hwf m hm i n hc
+      intro n' hlt hok
+      obtain ⟨g1, g2⟩ := RangeOK.inGrid hwf hm hok
+      have hlen := Bitmap.length_cells b hwf
+      have hpre : pre.length = i := by
+        have := congrArg (fun l => l[pre.length]?) e
+        simp only [List.getElem?_append_right (Nat.le_refl _), Nat.sub_self, List.getElem?_cons_zero] at this
+        obtain ⟨_, he⟩ := List.getElem?_eq_some_iff.1 this
+        simpa using he
+      have hL : pre.length + 1 + post.length = b.cells.length := by
+        have := congrArg List.length e
+        simp at this; omega
+      have hjpost : (n' - m - b.nMin).toNat ∈ post := by
+        have hjl : pre.length + 1 ≤ (n' - m - b.nMin).toNat := by omega
+        have := congrArg (fun l => l[(n' - m - b.nMin).toNat]?) e
+        beta_reduce at this
+        rw [List.getElem?_range (by omega), List.getElem?_append_right (by omega),
+          show (n' - m - b.nMin).toNat - pre.length = ((n' - m - b.nMin).toNat - pre.length - 1) + 1 by omega,
+          List.getElem?_cons_succ] at this
+        exact List.mem_of_getElem? this.symm
+      have hnone := hp _ hjpost
+      have hsome := candAt_of b hwf m hm (n' - m - b.nMin).toNat
+        (by rwa [show b.nMin + ((n' - m - b.nMin).toNat : Int) + m = n' by omega])
+      rw [hsome] at hnone; cases hnone
+
 /-- the `while` of `determine_slot_numbers`: the result is either "nothing" (start − step) or a width that passed the test -/
 theorem dsnLoop_spec (b : Bitmap) (c : Nat) (req pcm : Int) :
     ∀ (fuel : Nat) (i r : Int), dsnLoop b c req pcm fuel i = .ok r → r = i - pcm ∨ centredFree b c r = .ok true := by
